@@ -796,7 +796,7 @@ def tmatch(t, pat, env=None):
     if k == "call":
         if not (t[1] and (pat[1] == "_" or path_matches(t[1], pat[1]))):
             return None
-        if len(pat) > 2:
+        if len(pat) > 2 and pat[2] != "_":
             if len(pat[2]) != len(t[2]):
                 return None
             for a, p in zip(t[2], pat[2]):
